@@ -26,6 +26,26 @@ CLAIMED = {
          "property) in sa/props/c11.py, the CFG engine. Assumes each operation runs on a Service freshly loaded from disk "
          "and that only the echo handlers run concurrently with an awaiting operation. Behaviour against a live server and "
          "byte contents of files are not examined."),
+ "C12": ("atomic-region (await-point) analysis on the connection manager's CFG + lock-discipline and dominance rules",
+         "Decides, under asyncio's scheduling model (control changes hands only at await / async with / async for), whether "
+         "the registry check-then-act, the durable-state snapshot taken by the Service constructor, and the registry entry "
+         "used by the clean-up can be separated from their use by an await; that every registry mutation is under the lock; "
+         "and that the serialisation mechanism is present and dominates request processing (CONTROL notice, await of the "
+         "previous connection's closure, registration before an awaited start, receive loop reachable only through start, "
+         "one shared manager). Three genuine races of the unchanged tree are listed as known findings; any other construct "
+         "violating the same rules is reported.",
+         "Trusted: CPython's ast parser, sa/props/c12.py, the CFG engine, and asyncio's run-to-await semantics. Liveness and "
+         "the adequacy of the one-second clean-up delay are not examined; no interleaving is executed."),
+ "C13": ("static crash-prefix enumeration over extracted durable effect sequences + loader/predicate agreement (ast/CFG)",
+         "Decides, for every prefix of every durable effect sequence of the persisting handlers on both sides (crash points "
+         "are exactly the program points between durable micro-steps: mkdir, open-truncate, fill, rename, unlink), that the "
+         "loader extracted from the constructors neither raises nor reports a state that is not backed by complete "
+         "artifacts, and that the interrupted step is visibly complete or can be retried; plus the direct rules (predicate "
+         "covers reads, state file written last and replaced atomically, retry-tolerant mkdir). The quantifier over crash "
+         "points is discharged by enumeration of an abstract, source-derived model - nothing is executed.",
+         "Trusted: CPython's ast parser, sa/props/c13.py (the micro-step model of open/replace/mkdir/unlink and the pre/post "
+         "state table of the five persisting operations), the CFG path enumeration. Assumes rename is atomic and a crash "
+         "falls between file-system calls; fsync/torn writes are not modelled."),
 }
 NA_REASON = "check under construction in this session (see DESIGN.md section 3); not yet registered"
 NA = {}
